@@ -305,10 +305,14 @@ pub fn engine(rep: &mut Report, focus: &str, n: usize, seed: u64, thorough: bool
     if focus == "C04" {
         crate::scope::prefix_scope(rep, &mut rng, thorough);
         crate::scope::literal_scope(rep, &mut rng, thorough);
+        crate::scope::deep_first_scope(rep);
     }
     if focus == "C01" {
         crate::scope::run_spec_probes(rep);
         crate::scope::backref_scope(rep);
+    }
+    if matches!(focus, "C01" | "C02" | "C03") {
+        crate::scope::size_scope(rep, focus);
     }
     if matches!(focus, "C01" | "C02" | "C03" | "C05") {
         crate::scope::loop_scope(rep, &mut rng, focus, thorough);
@@ -770,6 +774,45 @@ pub fn c05_scope(rep: &mut Report, seed: u64, thorough: bool) {
                     }
                 }
             }
+        }
+    }
+}
+
+// ------------------------------------------------------------------ bytesearch.rs tie
+
+#[repr(align(8))]
+struct Aligned([u8; 96]);
+
+/// `ByteBitmap::find_in` (the word-at-a-time scan under default features) on random sets and haystacks at all
+/// four alignments of the slice start, against the Lean model of bytesearch.rs (which takes the
+/// alignment offset as a parameter).
+pub fn bytesearch_tie(rep: &mut Report, n: usize, seed: u64) {
+    let mut rng = Rng::new(seed);
+    for _ in 0..n {
+        let setn = [0usize, 1, 2, 5, 16, 200][rng.below(6)];
+        let pool: Vec<u8> = match rng.below(3) {
+            0 => (0u8..=255).collect(),
+            1 => vec![0x00, 0x0F, 0x10, 0x7F, 0x80, 0xC3, 0xE2, 0xF0, 0xFF, b'a', b'b'],
+            _ => (0x60u8..0x70).collect(),
+        };
+        let set: Vec<u8> = (0..setn).map(|_| *rng.pick(&pool)).collect();
+        let mut buf = Aligned([0u8; 96]);
+        for b in buf.0.iter_mut() {
+            *b = if rng.chance(1, 6) && !set.is_empty() { *rng.pick(&set) } else { *rng.pick(&pool) };
+        }
+        let k = rng.below(8);
+        let len = rng.below(40);
+        let hay = &buf.0[k..k + len];
+        let off = hay.as_ptr().align_offset(4);
+        let got = regress::verif::bitmap_find_in(&set, hay);
+        let hex = |v: &[u8]| if v.is_empty() { "-".to_string() } else { v.iter().map(|b| format!("{:02x}", b)).collect::<String>() };
+        rep.case(&format!("{:?} {:?} {}", set, hay, off), got.is_some());
+        rep.count(&format!("align-offset:{}", off));
+        rep.tie(format!("bitmapfind {} {} {}", hex(&set), hex(hay), off), match got { Some(i) => i.to_string(), None => "none".into() });
+        // the definition itself: least index whose byte is in the set
+        let want = hay.iter().position(|b| set.contains(b));
+        if got != want {
+            rep.violation("impl-vs-spec:C04", format!("ByteBitmap::find_in = {:?}, first member at {:?}", got, want), format!("set {:?} hay {:?} align offset {}", set, hay, off));
         }
     }
 }
